@@ -3,7 +3,7 @@
 //! step.  Each table is kept on one data page; every UPDATE writes its own row with its own 8-byte
 //! marker, so the set of markers found in a WAL frame tells which updates the logged page image
 //! contains.  Scheduling sites: the real ones of execute_small_commit / group_commit.rs
-//! (401, 301, 302, 402, 304, 403, 305, 306) plus the harness's own site 400 between the last
+//! (401, 301, 302, 402, 304, 404, 403, 305, 306) plus the harness's own site 400 between the last
 //! UPDATE and COMMIT; every other site (page locks 201-204, ...) is passed through at once.
 //!
 //!   gen    cases = (programs, schedule, everything observed) for coq/Corr/C38.v
@@ -60,7 +60,7 @@ fn wal_frame_count(dir: &Path) -> usize {
         .map(|e| e.metadata().map(|m| m.len() as usize / FRAME).unwrap_or(0)).sum()).unwrap_or(0)
 }
 
-fn interesting(site: u32) -> bool { matches!(site, 301 | 302 | 304 | 305 | 306 | 400 | 401 | 402 | 403) }
+fn interesting(site: u32) -> bool { matches!(site, 301 | 302 | 304 | 305 | 306 | 400 | 401 | 402 | 403 | 404) }
 
 #[derive(Clone, Debug, Default)]
 struct Obs {
@@ -116,7 +116,8 @@ fn run_once(progs: &[Vec<Txn>], plan: Plan) -> (Obs, bool, bool) {
         db.execute("PRAGMA wal=ON").map_err(|e| format!("{:#}", e))?;
         for t in 1..=2 {
             db.execute(&format!("CREATE TABLE t{} (id INT PRIMARY KEY, v BIGINT)", t)).map_err(|e| format!("{:#}", e))?;
-            for i in 1..=MAX_UPD { db.execute(&format!("INSERT INTO t{} VALUES ({}, {})", t, i, i)).map_err(|e| format!("{:#}", e))?; }
+            let rows: Vec<String> = (1..=MAX_UPD).map(|i| format!("({}, {})", i, i)).collect();
+            db.execute(&format!("INSERT INTO t{} VALUES {}", t, rows.join(", "))).map_err(|e| format!("{:#}", e))?;
         }
         Ok(db)
     })();
@@ -284,7 +285,7 @@ fn parse_line(l: &str) -> Option<(Vec<Vec<Txn>>, Vec<usize>)> {
     if progs.is_empty() || progs.len() > 3 || progs.iter().any(|p| p.is_empty()) { None } else { Some((progs, sched)) }
 }
 fn st4(x: i64) -> u64 {
-    match x { 0 => 0, 1 => 1, 2 => 2, 3 => 3, 301 => 4, 302 => 5, 304 => 6, 305 => 7, 306 => 8, 401 => 9, 402 => 10, 403 => 11, 400 => 14, _ => 15 }
+    match x { 0 => 0, 1 => 1, 2 => 2, 3 => 3, 301 => 4, 302 => 5, 304 => 6, 305 => 7, 306 => 8, 401 => 9, 402 => 10, 403 => 11, 404 => 12, 400 => 14, _ => 15 }
 }
 /// compact encodings, see coq/Corr/C38.v
 fn case_term(progs: &[Vec<Txn>], o: &Obs) -> String {
